@@ -5,6 +5,7 @@ package main
 // small entailment procedure over linear integer facts.
 
 import (
+	"strconv"
 	"fmt"
 	"go/constant"
 	"go/token"
@@ -62,6 +63,24 @@ func (l Lin) eq(o Lin) bool {
 	d := l.sub(o)
 	return len(d.t) == 0 && d.c == 0
 }
+// key is a cheap canonical rendering used for de-duplication.
+func (l Lin) key() string {
+	ks := make([]string, 0, len(l.t))
+	for k := range l.t {
+		ks = append(ks, k)
+	}
+	sort.Strings(ks)
+	var sb strings.Builder
+	for _, k := range ks {
+		sb.WriteString(k)
+		sb.WriteByte('*')
+		sb.WriteString(strconv.FormatInt(l.t[k], 10))
+		sb.WriteByte(';')
+	}
+	sb.WriteString(strconv.FormatInt(l.c, 10))
+	return sb.String()
+}
+
 func (l Lin) String() string {
 	var ks []string
 	for k := range l.t {
@@ -132,6 +151,11 @@ type FuncInfo struct {
 	phis    []*ssa.Phi
 	av      map[string]ssa.Value
 	vers    map[*ssa.UnOp]string
+	lemmas  []Fact
+	lemmasDone bool
+	proveMemo map[string]int
+	budget  int // remaining prover steps of the current top-level query
+	nested  int
 	loadAtoms map[string]ssa.Value
 	ra      map[[2]*ssa.BasicBlock]map[*ssa.BasicBlock]bool
 }
@@ -1241,6 +1265,24 @@ func (fi *FuncInfo) valueFacts(vals []ssa.Value) []Fact {
 		if fi.ctx.nonneg(v) && !l.isConst() {
 			out = append(out, Fact{l.scale(-1), LE})
 		}
+		if bo, ok := v.(*ssa.BinOp); ok && bo.Op == token.SHR {
+			if k, isC := constInt(bo.Y); isC && k >= 0 && k < 8 {
+				if call, ok := bo.X.(*ssa.Call); ok {
+					if callee := call.Call.StaticCallee(); callee != nil && callee.Pkg != nil && callee.Pkg.Pkg.Path() == "math/bits" {
+						max := int64(-1)
+						switch callee.Name() {
+						case "TrailingZeros64", "LeadingZeros64", "Len64":
+							max = 64
+						case "TrailingZeros32", "LeadingZeros32", "Len32":
+							max = 32
+						}
+						if max > 0 {
+							out = append(out, Fact{l.addc(-(max >> uint(k))), LE})
+						}
+					}
+				}
+			}
+		}
 		if call, ok := v.(*ssa.Call); ok {
 			args := call.Call.Args
 			if bi, ok := call.Call.Value.(*ssa.Builtin); ok {
@@ -1290,45 +1332,197 @@ func (fi *FuncInfo) atomValues() map[string]ssa.Value {
 
 // entails: do facts imply L ≤ 0?  Depth-limited search for a non-negative
 // combination of LE facts (each used with coefficient 1, repeated use allowed).
+var entailBudget = 1 << 30
+
+// entails: do the facts imply goal ≤ 0 ?  Decided by Fourier–Motzkin
+// elimination on the rows connected to the goal: the system
+// {facts, goal ≥ 1} has no rational solution. (Sound for integers; the depth
+// argument is kept for the callers and only scales the row cap.)
+var statProve, statEntail, statFM int
+
 func entails(facts []Fact, goal Lin, depth int) bool {
 	if goal.isConst() && goal.c <= 0 {
 		return true
 	}
-	if depth == 0 {
-		return false
-	}
+	statEntail++
+	var all []Lin
 	for _, f := range facts {
-		var cands []Lin
 		switch f.Op {
 		case LE:
-			cands = []Lin{f.L}
+			all = append(all, f.L)
 		case EQ:
-			cands = []Lin{f.L, f.L.scale(-1)}
-		default:
-			continue
+			all = append(all, f.L, f.L.scale(-1))
 		}
-		for _, fl := range cands {
-			// useful only if it cancels at least one atom of the goal
-			useful := goal.isConst() // contradiction search: any fact may start
-			for a, v := range fl.t {
-				if gv, ok := goal.t[a]; ok && (gv > 0) == (v > 0) {
-					useful = true
-					break
+	}
+	// relevance: rows connected to the goal through shared atoms (all rows for a contradiction query)
+	var rows []Lin
+	if goal.isConst() {
+		rows = all
+	} else {
+		atoms := map[string]bool{}
+		for a := range goal.t {
+			atoms[a] = true
+		}
+		used := make([]bool, len(all))
+		for changed := true; changed; {
+			changed = false
+			for i, r := range all {
+				if used[i] {
+					continue
 				}
-			}
-			if !useful {
-				continue
-			}
-			rest := goal.sub(fl)
-			if len(rest.t) > len(goal.t)+2 && len(rest.t) > 4 {
-				continue
-			}
-			if entails(facts, rest, depth-1) {
-				return true
+				hit := false
+				for a := range r.t {
+					if atoms[a] {
+						hit = true
+						break
+					}
+				}
+				if r.isConst() && r.c > 0 {
+					hit = true
+				}
+				if hit {
+					used[i] = true
+					changed = true
+					rows = append(rows, r)
+					for a := range r.t {
+						atoms[a] = true
+					}
+				}
 			}
 		}
 	}
-	return false
+	rows = append(rows, goal.scale(-1).addc(1))
+	return fmInfeasible(rows, 60+20*depth)
+}
+
+func gcd64(a, b int64) int64 {
+	if a < 0 {
+		a = -a
+	}
+	if b < 0 {
+		b = -b
+	}
+	for b != 0 {
+		a, b = b, a%b
+	}
+	return a
+}
+
+func normRow(r Lin) Lin {
+	var g int64
+	for _, v := range r.t {
+		g = gcd64(g, v)
+	}
+	if g > 1 {
+		out := Lin{t: map[string]int64{}}
+		for a, v := range r.t {
+			out.t[a] = v / g
+		}
+		// floor division keeps the integer meaning: Σ ≤ −c  ⇒  Σ/g ≤ floor(−c/g)
+		c := r.c
+		if c >= 0 {
+			out.c = (c + g - 1) / g
+		} else {
+			out.c = -((-c) / g)
+		}
+		return out
+	}
+	return r
+}
+
+// fmInfeasible: the rows (each meaning row ≤ 0) have no solution.
+func fmInfeasible(rows []Lin, cap int) bool {
+	seen := map[string]bool{}
+	var cur []Lin
+	add := func(dst []Lin, r Lin) ([]Lin, bool) {
+		r = normRow(r)
+		if r.isConst() {
+			return dst, r.c > 0
+		}
+		k := r.key()
+		if seen[k] {
+			return dst, false
+		}
+		seen[k] = true
+		return append(dst, r), false
+	}
+	for _, r := range rows {
+		var bad bool
+		cur, bad = add(cur, r)
+		if bad {
+			return true
+		}
+	}
+	for {
+		statFM++
+		entailBudget--
+		if entailBudget < 0 {
+			return false
+		}
+		// choose the variable with the smallest pos·neg product
+		pos, neg := map[string]int{}, map[string]int{}
+		for _, r := range cur {
+			for a, v := range r.t {
+				if v > 0 {
+					pos[a]++
+				} else {
+					neg[a]++
+				}
+			}
+		}
+		best, bestCost := "", 1<<30
+		for a := range pos {
+			c := pos[a] * neg[a]
+			if c < bestCost || (c == bestCost && a < best) {
+				best, bestCost = a, c
+			}
+		}
+		for a := range neg {
+			if _, ok := pos[a]; !ok {
+				if 0 < bestCost || best == "" {
+					best, bestCost = a, 0
+				}
+			}
+		}
+		if best == "" {
+			return false
+		}
+		var P, N, next []Lin
+		for _, r := range cur {
+			v := r.t[best]
+			switch {
+			case v > 0:
+				P = append(P, r)
+			case v < 0:
+				N = append(N, r)
+			default:
+				next = append(next, r)
+			}
+		}
+		seen = map[string]bool{}
+		for _, r := range next {
+			seen[r.key()] = true
+		}
+		for _, p := range P {
+			for _, n := range N {
+				a, b := p.t[best], -n.t[best]
+				comb := p.scale(b).add(n.scale(a))
+				delete(comb.t, best)
+				var bad bool
+				next, bad = add(next, comb)
+				if bad {
+					return true
+				}
+				if len(next) > cap {
+					return false
+				}
+			}
+		}
+		cur = next
+		if len(cur) == 0 {
+			return false
+		}
+	}
 }
 
 // proveLE proves L ≤ 0 at block b (facts of dominating edges, value facts,
@@ -1340,6 +1534,67 @@ func (fi *FuncInfo) proveLE(goal Lin, b *ssa.BasicBlock, extra []Fact) bool {
 func (fi *FuncInfo) proveLE0(goal Lin, conds []Cond, extra []Fact, hyp map[string]bool, depth int) bool {
 	if goal.isConst() && goal.c <= 0 {
 		return true
+	}
+	// every outermost query gets a fixed budget of prover steps
+	if fi.nested == 0 {
+		fi.budget = 4000
+		entailBudget = 400000
+	}
+	fi.nested++
+	defer func() { fi.nested-- }()
+	statProve++
+	// memo: identical sub-queries recur massively in the search
+	var mk strings.Builder
+	mk.WriteString(goal.key())
+	mk.WriteByte('|')
+	for _, cd := range conds {
+		fmt.Fprintf(&mk, "%p%v,", cd.V, cd.True)
+	}
+	mk.WriteByte('|')
+	for _, f := range extra {
+		mk.WriteString(f.L.key())
+		mk.WriteByte(byte('0' + f.Op))
+		mk.WriteByte(',')
+	}
+	mk.WriteByte('|')
+	{
+		hs := make([]string, 0, len(hyp))
+		for h := range hyp {
+			hs = append(hs, h)
+		}
+		sort.Strings(hs)
+		for _, h := range hs {
+			mk.WriteString(h)
+			mk.WriteByte(',')
+		}
+	}
+	memoKey := mk.String()
+	if fi.proveMemo == nil {
+		fi.proveMemo = map[string]int{}
+	}
+	if v, ok := fi.proveMemo[memoKey]; ok {
+		if v == -1 {
+			return true
+		}
+		if v <= depth+1 { // failed before with at least as much remaining depth
+			return false
+		}
+	}
+	res := fi.proveLE1(goal, conds, extra, hyp, depth)
+	if res {
+		fi.proveMemo[memoKey] = -1
+	} else if fi.budget >= 0 {
+		if old, ok := fi.proveMemo[memoKey]; !ok || depth+1 < old {
+			fi.proveMemo[memoKey] = depth + 1
+		}
+	}
+	return res
+}
+
+func (fi *FuncInfo) proveLE1(goal Lin, conds []Cond, extra []Fact, hyp map[string]bool, depth int) bool {
+	fi.budget--
+	if fi.budget < 0 {
+		return false
 	}
 	facts := append(fi.factsOf(conds), extra...)
 	av := fi.atomValues()
@@ -1375,18 +1630,38 @@ func (fi *FuncInfo) proveLE0(goal Lin, conds []Cond, extra []Fact, hyp map[strin
 			facts = append(facts, Fact{f.L.scale(-1).addc(1), LE})
 		} else if entails(facts, f.L, 2) {
 			facts = append(facts, Fact{f.L.addc(1), LE})
+		} else if depth == 0 && sharesAtom(f.L, goal) {
+			// the sign may need a case split over a phi (range index ≥ 0)
+			var others []Cond
+			if fi.proveLE0(f.L.scale(-1), conds, extra, hyp, 3) {
+				facts = append(facts, Fact{f.L.scale(-1).addc(1), LE})
+			} else if fi.proveLE0(f.L, conds, extra, hyp, 3) {
+				facts = append(facts, Fact{f.L.addc(1), LE})
+			}
+			_ = others
 		}
 	}
 	if entails(facts, goal, 4) {
 		return true
 	}
-	if depth >= 4 {
+	// ex falso: contradictory conditions make the point unreachable
+	if len(extra) > 0 && depth <= 2 && entails(facts, linConst(1), 3) {
+		return true
+	}
+	if depth >= 6 {
 		return false
 	}
 	// one resolution step with a fact whose residual goal mentions a phi:
 	// the residual may then be closed by a case split (e.g. k ≥ M, M = φ(3, inputLen) ≥ 1)
-	if depth <= 1 {
-		for _, f := range facts {
+	nres := 0
+	for k := range hyp {
+		if strings.HasPrefix(k, "#res") {
+			nres++
+		}
+	}
+	if nres < 2 {
+		resFacts := append(fi.factsOf(conds), extra...)
+		for _, f := range resFacts {
 			if f.Op != LE {
 				continue
 			}
@@ -1408,8 +1683,15 @@ func (fi *FuncInfo) proveLE0(goal Lin, conds []Cond, extra []Fact, hyp map[strin
 					}
 				}
 			}
-			if hasPhi && fi.proveLE0(rest, conds, extra, hyp, depth+2) {
-				return true
+			if hasPhi {
+				h2 := map[string]bool{}
+				for k := range hyp {
+					h2[k] = true
+				}
+				h2[fmt.Sprintf("#res%d", nres)] = true
+				if fi.proveLE0(rest, conds, extra, h2, depth+1) {
+					return true
+				}
 			}
 		}
 	}
@@ -1421,10 +1703,8 @@ func (fi *FuncInfo) proveLE0(goal Lin, conds []Cond, extra []Fact, hyp map[strin
 	sort.Strings(atoms)
 	for _, a := range atoms {
 		phi, ok := av[a].(*ssa.Phi)
-		isLen := false
 		if !ok && strings.HasPrefix(a, "len(") && strings.HasSuffix(a, ")") {
 			phi, ok = av[a[4:len(a)-1]].(*ssa.Phi)
-			isLen = true
 		}
 		if !ok {
 			continue
@@ -1439,24 +1719,49 @@ func (fi *FuncInfo) proveLE0(goal Lin, conds []Cond, extra []Fact, hyp map[strin
 		}
 		hyp2[key] = true
 		all := true
-		coef := goal.t[a]
-		for i, e := range phi.Edges {
+		for i := range phi.Edges {
 			pred := phi.Block().Preds[i]
+			// substitute every phi of this block that occurs in the goal (they
+			// are assigned together on the edge)
 			sub := goal.clone()
-			delete(sub.t, a)
-			if isLen {
-				sub = sub.addk(fi.lenOf(e), coef)
-			} else {
-				sub = sub.addk(fi.lin(e), coef)
+			for _, a2 := range atoms {
+				p2, ok2 := av[a2].(*ssa.Phi)
+				isLen2 := false
+				if !ok2 && strings.HasPrefix(a2, "len(") && strings.HasSuffix(a2, ")") {
+					p2, ok2 = av[a2[4:len(a2)-1]].(*ssa.Phi)
+					isLen2 = true
+				}
+				if !ok2 || p2.Block() != phi.Block() {
+					continue
+				}
+				co := goal.t[a2]
+				delete(sub.t, a2)
+				if isLen2 {
+					sub = sub.addk(fi.lenOf(p2.Edges[i]), co)
+				} else {
+					sub = sub.addk(fi.lin(p2.Edges[i]), co)
+				}
 			}
-			// coinduction: the same goal about the same phi may be assumed on a back edge
 			ex := extra
+			var cs []Cond
 			if phi.Block().Dominates(pred) {
+				// back edge: coinduction. The incoming values are expressed over
+				// the PREVIOUS instance of the header's phis, so only the edge
+				// conditions (evaluated in that iteration) and the induction
+				// hypothesis may be used, not the conditions of the site.
 				ex = append(append([]Fact{}, extra...), Fact{goal, LE})
+				cs = fi.edgeConds(pred, phi.Block())
+			} else {
+				cs = append(append([]Cond{}, conds...), fi.edgeConds(pred, phi.Block())...)
+				// on a forward edge the phi's current value IS the incoming value
+				ex = append([]Fact{}, extra...)
+				for _, a2 := range atoms {
+					p2, ok2 := av[a2].(*ssa.Phi)
+					if ok2 && p2.Block() == phi.Block() {
+						ex = append(ex, Fact{linAtom(a2).sub(fi.lin(p2.Edges[i])), EQ})
+					}
+				}
 			}
-			// the conditions of the site stay valid (the phi's block dominates
-			// the site); the edge conditions held when the phi was assigned
-			cs := append(append([]Cond{}, conds...), fi.edgeConds(pred, phi.Block())...)
 			if !fi.proveLE0(sub, cs, ex, hyp2, depth+1) {
 				all = false
 				break
@@ -1631,4 +1936,13 @@ func returnAlias(fn *ssa.Function) (idx int, path string, ok bool) {
 	}
 	aliasMemo[fn] = [3]any{idx, path, true}
 	return idx, path, true
+}
+
+func sharesAtom(a, b Lin) bool {
+	for k := range a.t {
+		if _, ok := b.t[k]; ok {
+			return true
+		}
+	}
+	return false
 }
